@@ -282,7 +282,13 @@ pub fn required_witnesses(body: &Node, doc: &[u8], o: &Outcome) -> Result<(BTree
     // native scripts: hinted signers, otherwise every key hash in the script
     for it in &o.script_items {
         if !it.plutus {
-            let ks = if it.signer_hint.is_empty() { crate::scenario::native_script_keys(it.script_index) } else { it.signer_hint.clone() };
+            let ks = if it.signer_hint.is_empty() {
+                crate::scenario::native_script_keys(it.script_index)
+            } else if it.signer_hint == [crate::scenario::DECLARED_NO_SIGNERS] {
+                Vec::new()
+            } else {
+                it.signer_hint.clone()
+            };
             for k in ks {
                 keys.insert(w.keys[k].hash_bytes.clone());
             }
